@@ -1,6 +1,7 @@
 //! C10 — all API routes agree; rendering is deterministic; render trees are reusable.
 use super::common::*;
 use crate::cfg::{free_fn, render, render_route, staged_renders, CfgSpec, Deco, Rend, Route, StagedKind};
+use super::fuzzsub::FuzzSub;
 use crate::engine::{PropSub, Property, Stats};
 use crate::gen::{self, census, Doc, Mutation, G};
 use crate::util::short;
@@ -161,6 +162,7 @@ pub fn property() -> Property {
         subs: vec![
             PropSub::new("history", 12_000, 120_000, move || hist_case(g.clone(), false), check_history).with_validity(|c| c.doc.valid() && !c.ops.is_empty()).boxed(),
             PropSub::new("history_mutated", 4_000, 40_000, move || hist_case(g2.clone(), true), check_history).with_validity(|c| c.doc.valid() && !c.ops.is_empty()).boxed(),
+            FuzzSub { name: "fuzz_render", target: "fuzz_render", props: &["C10"], seconds: 120 }.boxed(),
         ],
     }
 }
